@@ -54,6 +54,7 @@ var buildMu sync.Mutex
 
 type Interp struct {
 	prog   *ssa.Program
+	bnOrd  *big.Int // bn256 model: group order read from the package
 	tt     *TermTable
 	solver *Solver
 	opts   *Options
